@@ -39,6 +39,22 @@ impl Collector {
         }
     }
 
+    /// cheap path: only builds the finding when it would become the best one
+    pub fn add_lazy<F: FnOnce() -> Finding>(&mut self, prop: &str, sig: &str, size: usize, mk: F) {
+        let key = (prop.to_string(), sig.to_string());
+        match self.best.get_mut(&key) {
+            Some((b, n)) => {
+                *n += 1;
+                if size < b.size {
+                    *b = mk();
+                }
+            }
+            None => {
+                self.best.insert(key, (mk(), 1));
+            }
+        }
+    }
+
     pub fn merge(&mut self, other: Collector) {
         for (k, (f, n)) in other.best {
             match self.best.get_mut(&k) {
